@@ -319,13 +319,31 @@ func (CoreScenario) Gen(r *rand.Rand, prop string) *SvcCase {
 		c.Workers = pick(r, 1, 2, 2, 3)
 		a := ActorSpec{Name: "burst"}
 		g := pick(r, "mg", "1", "fresh")
-		for i, n := 0, 10+r.IntN(16); i < n; i++ {
+		nb := 10 + r.IntN(16)
+		marks := map[int]bool{8: true, 16: true}
+		if chance(r, 35) {
+			// long enough to pass thresholds such as 32 or 64 callbacks:
+			// the workers are held until that many are queued, and the
+			// following submissions arrive exactly when they have caught up
+			c.HoldWorkers = pick(r, 31, 32, 33, 34, 63, 64, 65)
+			nb = c.HoldWorkers + 3 + r.IntN(4)
+			marks = map[int]bool{c.HoldWorkers: true, c.HoldWorkers + 1: true, c.HoldWorkers + 2: true}
+		}
+		for i, n := 0, nb; i < n; i++ {
 			op := Op{ID: next(), Kind: "withgroup", Group: g}
-			if chance(r, 15) {
+			if chance(r, 15) && c.HoldWorkers == 0 {
 				op.Group = "other"
 			}
 			if chance(r, 30) {
 				op.Script = []string{"y"}
+			}
+			if marks[i] {
+				// after a round number of callbacks, submit exactly when
+				// the worker has caught up
+				op.Args = []string{"drainwait"}
+				if i > 0 {
+					a.Ops[len(a.Ops)-1].Script = []string{"y", "y"}
+				}
 			}
 			a.Ops = append(a.Ops, op)
 		}
@@ -404,8 +422,27 @@ func RunSvc(sim *sched.Sim, c *SvcCase, raceMode bool, setup func(e *Engine)) *S
 		return int(e.cur.Load()) >= ep
 	}
 	libParked := 0
+	burstSubmitted := func() int {
+		n := 0
+		for ai := range c.Actors {
+			if c.Actors[ai].Name != "burst" {
+				continue
+			}
+			e.H.mu.Lock()
+			for oi := range c.Actors[ai].Ops {
+				if s := e.Subs[c.Actors[ai].Ops[oi].ID]; s != nil && s.Return != 0 {
+					n++
+				}
+			}
+			e.H.mu.Unlock()
+		}
+		return n
+	}
 	filter := func(t *sched.Task) bool {
 		if !t.Harness {
+			if c.HoldWorkers > 0 && t.Role == "worker" && !e.idleNow && burstSubmitted() < c.HoldWorkers {
+				return false
+			}
 			return true
 		}
 		if t == life {
@@ -441,6 +478,34 @@ func RunSvc(sim *sched.Sim, c *SvcCase, raceMode bool, setup func(e *Engine)) *S
 					n := len(e.QEs)
 					e.H.mu.Unlock()
 					if n <= k && !e.idleNow {
+						return false
+					}
+				}
+				if len(op.Args) > 0 && op.Args[0] == "drainwait" && !e.idleNow {
+					// hold this submission until the worker has caught up
+					// with the actor: everything it submitted before has
+					// started and something is still executing, so that
+					// the submission lands while the group's last pending
+					// callback runs
+					for ai := range c.Actors {
+						if c.Actors[ai].Name != t.Name {
+							continue
+						}
+						for oi := range c.Actors[ai].Ops {
+							prev := &c.Actors[ai].Ops[oi]
+							if prev.ID == op.ID {
+								break
+							}
+							e.H.mu.Lock()
+							ps := e.Subs[prev.ID]
+							notStarted := ps != nil && ps.Err == "" && len(ps.Starts) == 0
+							e.H.mu.Unlock()
+							if notStarted {
+								return false
+							}
+						}
+					}
+					if e.H.Executing() == 0 {
 						return false
 					}
 				}
